@@ -1,5 +1,5 @@
 #!/bin/bash
-# usage (inside `vp run --with-repo`): tools/thorough_bg.sh <seed> <workers> [properties...]
+# usage (inside `vp run --with-repo`): tools/thorough_bg.sh <seed> <workers> [properties...]   (BUDGET=<s> overrides the tier's budget)
 # thorough tier of every (or the named) check against the snapshots of /verif and /repo the run was started from
 seed=$1; workers=$2; shift 2
 export GOFLAGS=-mod=mod GOPROXY=off VERIF_DIR=$PWD VERIF_REPO_DIR=${VP_RUN_REPO:-/repo}
@@ -7,7 +7,7 @@ go build -o bin/check ./cmd/check || exit 2
 props="$@"; [ -z "$props" ] && props=$(./bin/check list | awk '{print $1}')
 rc=0
 for p in $props; do
-  out=$(VERIF_SEED=$seed ./bin/check $p --tier thorough --workers $workers --no-evidence 2>&1); c=$?
+  out=$(VERIF_SEED=$seed ./bin/check $p --tier thorough --workers $workers --no-evidence ${BUDGET:+--budget $BUDGET} 2>&1); c=$?
   echo "$out" | grep -a "^check \|VIOLATION\|KNOWN-FINDING\|INFRA\|NOTE\|signature=" | cut -c1-400
   echo "$out" | grep -a -A3 "signature=" | cut -c1-600 | head -40
   [ $c -ne 0 ] && { echo "  -> $p exit $c"; rc=1; }
